@@ -318,7 +318,7 @@ func openReader(kind, path string) (any, func(), error) {
 // occur as body paragraphs (so that exclusion really filters body elements).
 func officeWithMarginCopies(r *rand.Rand, format string) []byte {
 	tk := fw.NewTokens(r)
-	p := logical.Profile{MinBlocks: 5, MaxBlocks: 9, HeadingHows: []string{"builtin"}, MaxHeadingLevel: 3, Lists: true, ListMaxDepth: 1, Tables: true, MaxRows: 3, MaxCols: 3, Styles: 1, HeaderFooter: true}
+	p := logical.Profile{MinBlocks: 5, MaxBlocks: 9, HeadingHows: []string{"builtin"}, MaxHeadingLevel: 9, BlockBias: "headings", Lists: true, ListMaxDepth: 1, Tables: true, MaxRows: 3, MaxCols: 3, Styles: 1, HeaderFooter: true}
 	var d *logical.Doc
 	for try := 0; try < 30; try++ {
 		d = logical.Gen(r, tk, p)
@@ -491,13 +491,35 @@ func readerReuse(c *dctx, docs []docFile, dir string) {
 	if len(pool) == 0 {
 		return
 	}
-	for h := 0; h < c.N(400, 5000); h++ {
+	// every non-PDF document once with a fixed alternation: the model, a rendering,
+	// the model again … (a rendering must not leave its adaptations in the parsed state)
+	nFixed := 0
+	for _, d := range pool {
+		if d.Kind != "pdf" {
+			nFixed++
+		}
+	}
+	for h := 0; h < c.N(400, 5000)+nFixed; h++ {
 		id := fmt.Sprintf("reuse:%d", h)
 		if !c.Want(id) {
 			continue
 		}
 		r := c.Rand("reuse", h)
 		d := pool[r.Intn(len(pool))]
+		var fixed []string
+		if h < nFixed {
+			k := 0
+			for _, pd := range pool {
+				if pd.Kind == "pdf" {
+					continue
+				}
+				if k == h {
+					d = pd
+				}
+				k++
+			}
+			fixed = []string{"Document", "Markdown", "Document", "MarkdownX", "Document", "Text", "TextX", "Document", "Markdown"}
+		}
 		rd, closeFn, err := openReader(d.Kind, d.Path)
 		if err != nil {
 			continue
@@ -507,7 +529,11 @@ func readerReuse(c *dctx, docs []docFile, dir string) {
 		if d.Kind == "pdf" {
 			calls = pdfReuseCalls
 		}
-		for k := 2 + r.Intn(5); k > 0; k-- {
+		if fixed != nil {
+			seq = fixed
+			calls = nil
+		}
+		for k := 2 + r.Intn(5); k > 0 && calls != nil; k-- {
 			if d.Kind == "pdf" && r.Intn(2) == 0 {
 				// single pages in any order: a page's result must not depend on what the reader served before
 				seq = append(seq, fmt.Sprintf("%s:%d", []string{"Page", "Raw", "PageX"}[r.Intn(3)], r.Intn(8)))
